@@ -14,13 +14,31 @@ def nest(rng, depth):
     target = rng.choice([n for n in names if n.startswith("a")] + ["p1"])
     reads = [n for n in names if rng.chance(2, 3)] or [names[0]]
     upd = rng.choice(["%s += 1" % target, "%s = %s + 2" % (target, target), "%s++" % target])
-    inner = "[func() { %s; return %s }, func() { return %s }]" % (upd, " + ".join(reads), target)
+    shadow = rng.below(4)
+    if shadow == 0:
+        # the closure first uses the captured binding, then declares its own variable of the same name and
+        # uses THAT from nested blocks: reads and writes below the declaration belong to the inner binding
+        inc = ("func() { %s; s := %s; %s := s + 7; if s >= 0 { %s += 1 }; for k := 0; k < 2; k++ { %s = %s + k }; "
+               "return %s + %s }") % (upd, target, target, target, target, target, target, " + ".join(reads))
+    elif shadow == 1:
+        # ... the same with the shadowing declaration inside a block
+        inc = ("func() { %s; s := %s; if s >= 0 { %s := 50; if s >= 0 { %s += s }; s = %s }; return s + %s }") % (
+            upd, target, target, target, target, " + ".join(reads))
+    else:
+        inc = "func() { %s; return %s }" % (upd, " + ".join(reads))
+    inner = "[%s, func() { return %s }]" % (inc, target)
     body = "return " + inner
+    # more than 8 local slots per function: the VM moves such frames to separately allocated storage
+    wide = rng.chance(1, 3)
     for i in range(depth, 0, -1):
         decl = "a%d := p%d * %d" % (i, i, rng.choice([2, 10, 3]))
         extra = ""
         if rng.chance(1, 3):
             extra = "; if p%d > 100 { a%d = 0 }" % (i, i)      # a block between declaration and capture
+        if wide:
+            nq = 8 + rng.below(4)
+            extra += "; " + "; ".join("q%d_%d := p%d + %d" % (i, j, i, j) for j in range(nq))
+            extra += "; a%d = a%d + q%d_%d - q%d_%d" % (i, i, i, nq - 1, i, nq - 1)
         fn = "func(p%d) { %s%s; %s }" % (i, decl, extra, body)
         body = "return " + fn
     top = body[len("return "):]
@@ -38,6 +56,8 @@ def model_program(rng):
     top, args = nest(rng, depth)
     lines = ["mk := " + top, "pair := " + call_chain("mk", args), "inc := pair[0]", "get := pair[1]"]
     route = rng.below(6)
+    if "q1_7" in top and rng.chance(2, 3):
+        route = 4
     if route == 0:
         calls = ["inc()", "get()", "inc()", "get()"]
     elif route == 1:
